@@ -66,11 +66,11 @@ Record toff := mkToff {
   e_binomial : tab2;            (* uint   binomial[u+1][u+1]                         *)
   e_log2binomial : tab2;        (* ushort log2binomial[u+1][u+1]                     *)
   e_offset_class : list N;      (* ushort offset_class[u+2]                          *)
-  e_short_bitmaps : list N;     (* ushort short_bitmaps[(1<<u)+1]: the slots written, in order;
-                                   slot 1<<u is never written (reading it = None)   *)
+  e_short_bitmaps : tarr;       (* ushort short_bitmaps[(1<<u)+1] (slot 1<<u is never written) *)
   e_rev_offset : tarr           (* ushort rev_offset[2 << (u+1)] = __Lis             *)
 }.
 Definition rrr_lis_depth : nat := 17.                (* 2 << (15+1) = 2^17 slots *)
+Definition rrr_bch_depth : nat := 16.                (* (1 << 15) + 1 slots: indices 0 .. 2^15 *)
 
 (* for (i = 0; i < u+1; i++) { binomial[i][0] = binomial[i][1] = binomial[i][i] = 1;
                                log2binomial[i][0] = log2binomial[i][1] = log2binomial[i][i] = 0; } *)
@@ -115,10 +115,10 @@ Fixpoint toff_cols (cnt : nat) (u j : N) (B L : tab2) : option (tab2 * tab2) :=
       end
   end.
 
-(* generaClase(bch, u, clase, puestos, pos_ini, generado).  State: __indiceFunc, the slots of bch
-   written so far (most recent first; slot k is written when __indiceFunc = k), __Lis.
-   __indAcumulado is constant during one top-level call. *)
-Definition gstate : Type := (N * list N * tarr)%type.
+(* generaClase(bch, u, clase, puestos, pos_ini, generado).  State: __indiceFunc, bch, __Lis.
+   __indAcumulado is constant during one top-level call.  [1 << i] is evaluated in int; i < u <= 15
+   by the loop condition, so the plain shift is exact. *)
+Definition gstate : Type := (N * tarr * tarr)%type.
 Fixpoint genera_clase (fuel : nat) (u clase puestos pos_ini generado indAcum : N) (st : gstate)
   : option (N * gstate) :=
   match fuel with
@@ -128,7 +128,7 @@ Fixpoint genera_clase (fuel : nat) (u clase puestos pos_ini generado indAcum : N
         let '(indice, bch, lis) := st in
         (* bch[__indiceFunc] = generado;  __Lis[generado] = __indiceFunc - __indAcumulado;  __indiceFunc++ *)
         if (indice <? 2 ^ u + 1) && (generado <? 2 ^ N.of_nat rrr_lis_depth) then
-          Some (1, (c32_u32 (indice + 1), rrr_u16 generado :: bch,
+          Some (1, (c32_u32 (indice + 1), tarr_set rrr_bch_depth bch indice (rrr_u16 generado),
                     tarr_set rrr_lis_depth lis generado (rrr_u16 (c32_u32 (indice + c32_W - indAcum)))))
         else None
       else if clase <? puestos then Some (0, st)
@@ -138,7 +138,7 @@ Fixpoint genera_clase (fuel : nat) (u clase puestos pos_ini generado indAcum : N
            | O => Some (ret, st)
            | S c =>
                if i <? u then
-                 match genera_clase f u clase (puestos + 1) (i + 1) (N.lor generado (shl32 1 i)) indAcum st with
+                 match genera_clase f u clase (puestos + 1) (i + 1) (N.lor generado (N.shiftl 1 i)) indAcum st with
                  | None => None
                  | Some (r, st') => loop c (i + 1) (c32_u32 (ret + r)) st'
                  end
@@ -171,14 +171,14 @@ Definition table_offset (u : N) : option toff :=
       match toff_cols (N.to_nat u) u 1 B0 L0 with
       | None => None
       | Some (B, L) =>
-          match genera_loop (N.to_nat (u + 1)) u 0 0 (0, [], TE) (repeat 0 (N.to_nat (u + 2))) with
+          match genera_loop (N.to_nat (u + 1)) u 0 0 (0, TE, TE) (repeat 0 (N.to_nat (u + 2))) with
           | None => None
-          | Some ((_, bch, lis), F) => Some (mkToff u B L F (rev bch) lis)
+          | Some ((_, bch, lis), F) => Some (mkToff u B L F bch lis)
           end
       end
   end.
 
-Definition toff_dummy : toff := mkToff 15 [] [] [] [] TE.
+Definition toff_dummy : toff := mkToff 15 [] [] [] TE TE.
 Definition toff_get (o : option toff) : toff := match o with Some e => e | None => toff_dummy end.
 (* static table_offset *BitSequenceRRR::E = new table_offset(BLOCK_SIZE) *)
 Definition rrr_E : toff := toff_get (table_offset rrr_BS).
@@ -195,7 +195,9 @@ Definition e_short_bitmap (e : toff) (class_offset inclass_offset : N) : option 
   else if class_offset =? e_u e then Some (rrr_u16 (rrr_dec32 (shl32 1 (e_u e))))
   else match c32_rd (e_offset_class e) class_offset with
        | None => None
-       | Some oc => c32_rd (e_short_bitmaps e) (c32_u32 (oc + inclass_offset))
+       | Some oc =>
+           let idx := c32_u32 (oc + inclass_offset) in
+           if idx <? 2 ^ e_u e + 1 then tarr_get rrr_bch_depth (e_short_bitmaps e) idx else None
        end.
 
 (* The functions of BitSequenceRRR take the universal table as an explicit first argument [E]
@@ -737,6 +739,10 @@ End WithE.
 (* ------------------------------------------------------------------------- *)
 (* 8. views used by the harness and by the statements                           *)
 (* ------------------------------------------------------------------------- *)
+(* start, start+1, ..., start+cnt-1 *)
+Fixpoint rrr_range (cnt : nat) (start : N) : list N :=
+  match cnt with O => [] | S c => start :: rrr_range c (start + 1) end.
+
 (* block k of the plain bit vector as a 15-bit number (bits beyond the end are 0) *)
 Definition rrr_blockv (bv : list bool) (k : N) : N :=
   word_of_bits (firstn 15 (skipn (N.to_nat (15 * k)) bv)).
@@ -761,6 +767,6 @@ Definition rrr_slot_ok (E : toff) (c o : N) : bool :=
 Definition rrr_class_ok (E : toff) (c : N) : bool :=
   match e_get_binomial E rrr_BS c, rrr_log2 E c with
   | Some bn, Some l =>
-      (l =? bits32 (bn - 1)) && forallb (rrr_slot_ok E c) (nrange (N.to_nat bn))
+      (l =? bits32 (bn - 1)) && forallb (rrr_slot_ok E c) (rrr_range (N.to_nat bn) 0)
   | _, _ => false
   end.
